@@ -5,6 +5,9 @@
   families. The "applied first" part is a theorem over the generated handler skeletons (Mfi/Gen/Skeletons).
 -/
 import Mfi.Model.Bank
+import Mfi.Model.Ix
+import Mfi.Lemmas.BankL
+import Mfi.Props.C03
 import Mfi.Lemmas.FxL
 import Mfi.Lemmas.ResL
 import Mfi.Props.C18
@@ -198,6 +201,144 @@ theorem accrue_empty_side {b : Bank} {ir : IrCalc} {now ta tl : Int} (hnow : b.l
 
 
 /-! ### "always applied first": theorems over the handler skeletons regenerated from the source -/
+/-! ### instruction level: nobody transacts against stale share values
+
+`Mfi/Model/Ix.lean` models the four user instructions (handler glue around accrual, wrapper operation, token amount);
+the `ixf` family diffs it bit for bit against the REAL instructions through dispatch. -/
+
+section ix
+open Mfi.Ix
+
+theorem wdall_sv {b b' : Bank} {x x' : Balance} {now amt : Int} (h : withdrawAll b x now = .ok (b', x', amt)) :
+    b'.asv = b.asv ∧ b'.lsv = b.lsv := by
+  unfold withdrawAll at h
+  obtain ⟨⟨b1, x1⟩, hc, h⟩ := Res.bind_ok h
+  dsimp only at h
+  obtain ⟨_, _, h⟩ := Res.bind_ok h
+  obtain ⟨_, _, h⟩ := Res.bind_ok h
+  obtain ⟨_, _, h⟩ := Res.bind_ok h
+  obtain ⟨_, _, h⟩ := Res.bind_ok h
+  obtain ⟨_, _, h⟩ := Res.bind_ok h
+  obtain ⟨b2, hb2, h⟩ := Res.bind_ok h
+  obtain ⟨_, _, h⟩ := Res.bind_ok h
+  obtain ⟨_, _, h⟩ := Res.bind_ok h
+  obtain ⟨_, _, h⟩ := Res.bind_ok h
+  obtain ⟨_, _, h⟩ := Res.bind_ok h
+  injection h with h
+  injection h with hb _
+  obtain ⟨⟨r, hb1⟩, _⟩ := claim_frame hc
+  obtain ⟨e2, _, _⟩ := changeAsset_frame hb2
+  subst hb
+  exact ⟨by rw [e2, hb1], by rw [e2, hb1]⟩
+
+theorem repall_sv {b b' : Bank} {x x' : Balance} {now amt : Int} (h : repayAll b x now = .ok (b', x', amt)) :
+    b'.asv = b.asv ∧ b'.lsv = b.lsv := by
+  unfold repayAll at h
+  obtain ⟨⟨b1, x1⟩, hc, h⟩ := Res.bind_ok h
+  dsimp only at h
+  obtain ⟨_, _, h⟩ := Res.bind_ok h
+  obtain ⟨_, _, h⟩ := Res.bind_ok h
+  obtain ⟨_, _, h⟩ := Res.bind_ok h
+  obtain ⟨_, _, h⟩ := Res.bind_ok h
+  obtain ⟨_, _, h⟩ := Res.bind_ok h
+  obtain ⟨b2, hb2, h⟩ := Res.bind_ok h
+  obtain ⟨_, _, h⟩ := Res.bind_ok h
+  obtain ⟨_, _, h⟩ := Res.bind_ok h
+  obtain ⟨_, _, h⟩ := Res.bind_ok h
+  obtain ⟨_, _, h⟩ := Res.bind_ok h
+  injection h with h
+  injection h with hb _
+  obtain ⟨⟨r, hb1⟩, _⟩ := claim_frame hc
+  obtain ⟨e2, _, _⟩ := changeLiab_frame hb2
+  subst hb
+  exact ⟨by rw [e2, hb1], by rw [e2, hb1]⟩
+
+/-- what "applied first" buys: the bank an instruction leaves behind carries exactly the share values of an accrual
+    of the pre-state to the current time -/
+def AtAccrued (e : Env) (b b' : Bank) : Prop :=
+  ∃ b1, accrueInterest b e.ir e.now = .ok b1 ∧ b'.asv = b1.asv ∧ b'.lsv = b1.lsv
+
+theorem ix_deposit_at_accrued {e : Env} {b b' : Bank} {bal x' : Option Balance} {amount t : Int} {up : Bool}
+    (h : Ix.deposit e b bal amount up = .ok (b', x', t)) : AtAccrued e b b' := by
+  unfold Ix.deposit at h
+  obtain ⟨b1, hb1, h⟩ := Res.bind_ok h
+  obtain ⟨amt, _, h⟩ := Res.bind_ok h
+  refine ⟨b1, hb1, ?_⟩
+  split at h
+  · injection h with h; injection h with hb _; subst hb; exact ⟨rfl, rfl⟩
+  · unfold depositCore at h
+    obtain ⟨r, hi, h⟩ := Res.bind_ok h
+    obtain ⟨_, _, h⟩ := Res.bind_ok h
+    injection h with h; injection h with hb _; subst hb
+    exact C03.inc_sv (x' := r.2) (b' := r.1) hi
+
+theorem ix_withdraw_at_accrued {e : Env} {b b' : Bank} {bal x' : Option Balance} {amount t : Int} {all : Bool}
+    (h : Ix.withdraw e b bal amount all = .ok (b', x', t)) : AtAccrued e b b' := by
+  unfold Ix.withdraw at h
+  obtain ⟨b1, hb1, h⟩ := Res.bind_ok h
+  refine ⟨b1, hb1, ?_⟩
+  cases bal with
+  | none => cases h
+  | some x =>
+    dsimp only at h
+    split at h
+    · obtain ⟨⟨b2, x2, amt⟩, hw, h⟩ := Res.bind_ok h
+      injection h with h; injection h with hb _; subst hb
+      exact wdall_sv hw
+    · obtain ⟨_, _, h⟩ := Res.bind_ok h
+      obtain ⟨⟨b2, x2⟩, hd, h⟩ := Res.bind_ok h
+      injection h with h; injection h with hb _; subst hb
+      exact C03.dec_sv hd
+
+theorem ix_repay_at_accrued {e : Env} {b b' : Bank} {bal x' : Option Balance} {amount t : Int} {all : Bool}
+    (h : Ix.repay e b bal amount all = .ok (b', x', t)) : AtAccrued e b b' := by
+  unfold Ix.repay at h
+  obtain ⟨b1, hb1, h⟩ := Res.bind_ok h
+  refine ⟨b1, hb1, ?_⟩
+  cases bal with
+  | none => cases h
+  | some x =>
+    dsimp only at h
+    split at h
+    · obtain ⟨⟨b2, x2, amt⟩, hw, h⟩ := Res.bind_ok h
+      dsimp only at h
+      obtain ⟨_, _, h⟩ := Res.bind_ok h
+      injection h with h; injection h with hb _; subst hb
+      exact repall_sv hw
+    · obtain ⟨⟨b2, x2⟩, hd, h⟩ := Res.bind_ok h
+      dsimp only at h
+      obtain ⟨_, _, h⟩ := Res.bind_ok h
+      injection h with h; injection h with hb _; subst hb
+      exact C03.inc_sv hd
+
+theorem ix_borrow_at_accrued {e : Env} {b b' : Bank} {bal x' : Option Balance} {amount t : Int}
+    (h : Ix.borrow e b bal amount = .ok (b', x', t)) : AtAccrued e b b' := by
+  unfold Ix.borrow at h
+  obtain ⟨b1, hb1, h⟩ := Res.bind_ok h
+  refine ⟨b1, hb1, ?_⟩
+  dsimp only at h
+  obtain ⟨pre, _, h⟩ := Res.bind_ok h
+  split at h
+  · obtain ⟨fee, _, h⟩ := Res.bind_ok h
+    obtain ⟨_, _, h⟩ := Res.bind_ok h
+    obtain ⟨tot, _, h⟩ := Res.bind_ok h
+    obtain ⟨⟨b2, x2⟩, hd, h⟩ := Res.bind_ok h
+    dsimp only at h
+    have hs := C03.dec_sv hd
+    split at h
+    · injection h with h; injection h with hb _; subst hb; exact hs
+    · split at h
+      · obtain ⟨pf, _, h⟩ := Res.bind_ok h
+        injection h with h; injection h with hb _; subst hb; exact hs
+      · injection h with h; injection h with hb _; subst hb; exact hs
+  · obtain ⟨⟨b2, x2⟩, hd, h⟩ := Res.bind_ok h
+    injection h with h; injection h with hb _; subst hb
+    exact C03.dec_sv hd
+
+end ix
+
+/-! ### applied first (handler skeletons regenerated from the source) -/
+
 open Mfi.Gen.Skel in
 /-- **accrue_first**: in the handlers of deposit, withdraw, borrow, repay, close-balance and
     bankruptcy settlement the bank's `accrue_interest` call occurs, and occurs before the first
